@@ -61,7 +61,24 @@ def main(tier, replay=None):
     rng = random.Random(run.seed)
     ns = [n for n in (dates.quick_days() if quick else range(61, dates.LAST + 1, 3)) if n >= 61]
     size = 2500 if quick else 20000
-    obs = dates.run_parallel(_days_chunk, [ns[i:i + size] for i in range(0, len(ns), size)])
+    CH = 100000
+    count = [0]
+    keep = []
+
+    def judge(part, label):
+        # one segment at a time (the observations of the thorough sweep together took 8 GB)
+        for o in part:
+            count[0] += 1
+            o['id'] = count[0]
+        v = core.validate_obs(run, 'Trace_Date', part, label)
+        core.tally(run, part, v, 'c14', key=lambda o: o['kind'] + json.dumps(o['in'], sort_keys=True))
+        if len(keep) < 1:
+            keep.append(part[min(100, len(part) - 1)])
+
+    for k in range(0, len(ns), CH):
+        seg = ns[k:k + CH]
+        judge(dates.run_parallel(_days_chunk, [seg[i:i + size] for i in range(0, len(seg), size)]), 'd%d' % (k // CH))
+    obs = []
     run.extra['days_swept'] = len(ns)
     # January and February 1900: the calendar functions (not the serial scale, which C13 owns) on every day
     for n in range(2, 61):
@@ -108,13 +125,8 @@ def main(tier, replay=None):
     for t in (0, 4, 5, 10, 11, 12, 13, 14, 15, 16, 17, 18, 21, -1, 100):
         for n in (61, 43831, dates.LAST):
             obs.append(dates.wtype_obs(p, n, t))
-    for n, o in enumerate(obs, 1):
-        o['id'] = n
-    CH = 100000
     for k in range(0, len(obs), CH):
-        part = obs[k:k + CH]
-        v = core.validate_obs(run, 'Trace_Date', part, 'p%d' % (k // CH))
-        core.tally(run, part, v, 'c14', key=lambda o: o['kind'] + json.dumps(o['in'], sort_keys=True))
+        judge(obs[k:k + CH], 'p%d' % (k // CH))
     run.exhaustive = True
-    run.samples = [obs[100], obs[-30], obs[-1]]
+    run.samples = keep + [obs[-30], obs[-1]]
     return run.finish()
